@@ -657,6 +657,14 @@ def run(chk):
 
     if chk.tier == "thorough":
         thorough(chk)
+    common.wrapper_family_rule(chk, P, "C02", "emit_core::props::Props", 2, forward=False, allow={
+        ("alloc::boxed::Box<", "get"): "the default get enumerates the boxed collection's own for_each (coherent by construction)",
+        ("alloc::boxed::Box<", "is_unique"): "the default (false) only disables a shortcut",
+        ("alloc::boxed::Box<", "pull"): "the default is get + cast",
+        ("alloc::sync::Arc<", "get"): "the default get enumerates the shared collection's own for_each (coherent by construction)",
+        ("alloc::sync::Arc<", "is_unique"): "the default (false) only disables a shortcut",
+        ("alloc::sync::Arc<", "pull"): "the default is get + cast",
+        ("(dyn emit_core::props::ErasedProps", "pull"): "the default is get + cast; the erased get is forwarded"})
     return chk
 
 
